@@ -34,7 +34,7 @@
    ASCII white space only; f"{x}" is modelled for None / bool / int / str /
    integral floats below 1e16. *)
 From Koreo Require Export Json Payload.
-From Coq Require Import DecimalString.
+From Coq Require Import DecimalString Permutation.
 Local Open Scope list_scope.
 
 (* ------------------------------------------------------------------ *)
@@ -739,4 +739,56 @@ Definition ann_free (t : json) : bool :=
       | _ => true
       end
   | _ => true
+  end.
+
+(* ---- server-side decoration (C04) ---- *)
+
+(* [decorates t s l l']: l' is the live object l after the server or other
+   actors decorated it, as far as target t can see: in a map anything may
+   happen to keys the comparison does not read (keys t does not specify, the
+   ownerReferences key, keys compared against last-applied: added, changed or
+   dropped), the specified keys stay and their values are decorated in turn;
+   ordered lists are decorated element-wise; a set-directed list is
+   reordered; a compare-as-map list may be reordered / extended as long as its
+   keyed view (_list_to_object) keeps every target-keyed entry, decorated. *)
+Inductive decorates : json -> bool -> json -> json -> Prop :=
+| dec_same t s l : decorates t s l l
+| dec_map tk s ak ak' sk lk cfg :
+    dirs_of tk = Some (sk, lk, cfg) ->
+    (forall k tv v, In (k, tv) tk -> specified_key lk k = true -> lookup k cfg = None ->
+       lookup k ak = Some v ->
+       exists v', lookup k ak' = Some v' /\ decorates tv (mem_str k sk) v v') ->
+    (forall k tv v fields T A, In (k, tv) tk -> specified_key lk k = true ->
+       lookup k cfg = Some fields -> lookup k ak = Some v ->
+       list_to_object tv fields = Ret T -> list_to_object v fields = Ret A ->
+       exists v' A', lookup k ak' = Some v' /\ list_to_object v' fields = Ret A' /\
+                     decorates T false A A') ->
+    decorates (JMap tk) s (JMap ak) (JMap ak')
+| dec_list tl al al' :
+    List.length al' = List.length al ->
+    (forall i t a a', nth_error tl i = Some t -> nth_error al i = Some a ->
+       nth_error al' i = Some a' -> decorates t false a a') ->
+    decorates (JList tl) false (JList al) (JList al')
+| dec_set tl al al' :
+    Permutation al al' -> decorates (JList tl) true (JList al) (JList al').
+
+(* ---- every tail outcome some key order allows (correspondence only) ---- *)
+Definition verdicts (o : outs) : list (res bool) :=
+  if o_oom o then [] else
+  if is_match o then [Done true] else
+  (if o_false o then [Done false] else []) ++
+  (if o_type o then [Raised ExTypeError] else []) ++
+  (if o_attr o then [Raised ExAttributeError] else []) ++
+  (if o_key o then [Raised ExKeyError] else []).
+
+Definition tail_all (cfg : tail_cfg) (target live : json) (ann : option json)
+  : list (tail_result * list call) :=
+  match (if tc_should_own cfg then validate_owner_reffed_r live (tc_owner_ref cfg)
+         else Done (Reffed true)) with
+  | Raised e => [(TRaised e, [])]
+  | Done rr =>
+      match extract_last_applied_r live ann with
+      | Raised e => [(TRaised e, [])]
+      | Done la => map (dispatch cfg target live rr) (verdicts (vmatch target live la false))
+      end
   end.
